@@ -155,6 +155,7 @@ mut('C13-pacer-shared-per-rate', 'C13', P, THR, "var (\n\tpacersMu sync.Mutex\n\
 EMIT = "func Emit[T any](ctx context.Context, cap int, frequency time.Duration, f F[int, T]) (<-chan T, <-chan error) {\n\tout := make(chan T, cap)\n\texx := f.errch(cap)\n\n\tgo func() {\n\t\tdefer close(out)\n\t\tdefer close(exx)\n\n\t\tvar (\n\t\t\tval T\n\t\t\terr error\n\t\t)\n\n\t\tfor i := 0; true; i++ {\n\t\t\ttime.Sleep(frequency)\n\n\t\t\tval, err = f.Apply(i)\n"
 mut('C11-emit-shared-index', 'C11', P, EMIT, "var (\n\temitMu  sync.Mutex\n\temitSeq int\n)\n\n" + EMIT.replace("\tgo func() {\n\t\tdefer close(out)", "\temitMu.Lock()\n\temitSeq = 0\n\temitMu.Unlock()\n\n\tgo func() {\n\t\tdefer close(out)").replace("\t\tfor i := 0; true; i++ {\n\t\t\ttime.Sleep(frequency)\n\n\t\t\tval, err = f.Apply(i)\n", "\t\tfor {\n\t\t\ttime.Sleep(frequency)\n\n\t\t\temitMu.Lock()\n\t\t\ti := emitSeq\n\t\t\temitSeq++\n\t\t\temitMu.Unlock()\n\t\t\tval, err = f.Apply(i)\n"), 'the index lives in a package-level variable: correct for one Emit at a time')
 mut('C05-fold-seeds-with-first-element', 'C05', P, "\t\tacc := m.Empty()\n\n\t\tvar x A\n\t\tfor x = range in {\n\t\t\tacc = m.Combine(acc, x)", "\t\tacc := m.Empty()\n\t\tfirst := true\n\n\t\tvar x A\n\t\tfor x = range in {\n\t\t\tif first {\n\t\t\t\tacc, first = x, false\n\t\t\t\tcontinue\n\t\t\t}\n\t\t\tacc = m.Combine(acc, x)", 'saves one Combine: empty <> x == x; the accumulator aliases the first element of the caller')
+mut('C09-try-pipef-lifts', 'C09', 'pipe/fork/function.go', "func (f try[A, B]) pipef() pipe.F[A, B] {\n\treturn pipe.Try(f)", "func (f try[A, B]) pipef() pipe.F[A, B] {\n\treturn pipe.Lift(f)", 'fork.Try handed to a delegating stage aborts instead of continuing')
 
 EQUIVALENT = {'C02-no-container-check', 'C04-codec-get-skips-fmap', 'C06-throttle-data-no-ctx', 'C15-map-stale-key', 'C05-filter-or', 'C05-partition-swapped-capacity', 'C10-empty-counted-per-worker', 'C14-foreach-swallows-last-error', 'C19-slice-cons-append', 'C04-setter-get-leaks'}
 
@@ -178,6 +179,8 @@ def run(m, tier):
         shutil.rmtree(d, ignore_errors=True)
         for x in ['/verif/harness/.stage/' + k, '/verif/harness/.bin/' + k, '/verif/.work/found-' + k, '/verif/.work/evidence-' + k]:
             shutil.rmtree(x, ignore_errors=True)
+        for g in __import__('glob').glob('/verif/harness/gen/*-' + k):
+            shutil.rmtree(g, ignore_errors=True)
         for ext in ('.mod', '.sum'):
             try:
                 os.remove('/verif/harness/.mod/' + k + ext)
